@@ -223,6 +223,60 @@ fn differential(ctx: &mut Ctx, acts: &[Act]) -> Option<(String, String)> {
     None
 }
 
+/// Two servers, one kill switch. Returns true when a violation was reported.
+fn two_servers_case(ctx: &mut Ctx, variant: usize) -> bool {
+    ctx.begin();
+    ctx.rep.evaluations += 1;
+    ctx.rep.count("histories_two_servers_one_kill_switch");
+    let shared = match vmm_sys_util::eventfd::EventFd::new(libc::EFD_NONBLOCK) {
+        Ok(e) => e,
+        Err(_) => return false,
+    };
+    let (mut a, mut b) = match (Sim::new(false, None), Sim::new(false, None)) {
+        (Ok(a), Ok(b)) => (a, b),
+        _ => return false,
+    };
+    if a.attach_shared_kill_switch(&shared).is_err() || b.attach_shared_kill_switch(&shared).is_err() {
+        return false;
+    }
+    if variant % 2 == 1 {
+        b.connect(0);
+        b.poll();
+        b.send_request(0, crate::sim::ReqKind::Get);
+    }
+    let _ = shared.write(1);
+    let case = J::obj(vec![("family", J::s("two-servers")), ("variant", J::u(variant as u64))]);
+    let mut verdict: Option<String> = None;
+    // the first server sees it (0..2 polls), then goes away in half of the variants
+    for _ in 0..(variant % 3) {
+        if !a.ready() || a.poll() != PollOut::Shutdown {
+            verdict = Some("the first server does not report the shutdown".into());
+        }
+    }
+    let keep_a = if variant >= 3 {
+        drop(a);
+        None
+    } else {
+        Some(a)
+    };
+    for k in 0..4 {
+        if verdict.is_some() {
+            break;
+        }
+        if !b.ready() {
+            verdict = Some(format!("second server, call #{}: the kill switch was signalled and never reset by the application, yet its epoll descriptor is not readable (the other server {})", k + 1, if variant >= 3 { "reported the shutdown and was dropped" } else { "is still alive" }));
+        } else if b.poll() != PollOut::Shutdown {
+            verdict = Some(format!("second server, call #{} did not return the shutdown indication", k + 1));
+        }
+    }
+    drop(keep_a);
+    if let Some(d) = verdict {
+        ctx.rep.violation("C18:would-block", d, case);
+        return true;
+    }
+    false
+}
+
 pub fn run(ctx: &mut Ctx) {
     let quick = ctx.quick();
     // every prefix of every history up to the depth, well-behaved and hostile alphabets
@@ -341,11 +395,24 @@ pub fn run(ctx: &mut Ctx) {
             }
         }
     }
+    // ---- one kill switch shared by two servers (two clones of one event descriptor): after the signal BOTH keep
+    // reporting the shutdown, whatever the other one does meanwhile (polls, reports it, is dropped)
+    if ctx.shard % 4 == 1 {
+        for variant in 0..6usize {
+            if two_servers_case(ctx, variant) {
+                break;
+            }
+        }
+    }
     let _ = c10::P10::new(1);
 }
 
 pub fn replay(ctx: &mut Ctx, case: &J) {
     ctx.only_case = None;
+    if case.gs("family") == "two-servers" {
+        two_servers_case(ctx, case.gu("variant") as usize);
+        return;
+    }
     if case.gs("family") == "differential" {
         let acts = hist::parse_history(case);
         if let Some((k, d)) = differential(ctx, &acts) {
